@@ -50,11 +50,15 @@ NOTES = {
     'C03-f': 'needs the sources=[...] form of with_store (several hot sources, each with its own pipeline, sharing one store): added as a C03 scenario with the protocol monitor on every boundary of every pipeline',
     'C09-f': 'NOT caught, deliberately: emit-before-persist in scan only shows under re-entrant delivery (a subscriber pushing the next item of the same key from inside its own on_next). That breaks the Rx contract that notifications are serialised; no property speaks about it, and the unchanged tree has other operators that are not re-entrant either',
     'C08-f': 'NOT caught, deliberately: needs a mux error raised inside the last tee_map branch that travels THROUGH the tee_map to a handler placed after it. C13 specifies handlers placed directly after the failing operator, C08 says nothing about errors (the unchanged tee_map forwards an upstream error once per branch)',
+    'C11-i': 'needs a time-out of zero (a clean-up replaced `is not None` by a truth test): zero time-outs are generated now (the first item of a key then expires the window it has just opened: empty leading windows are typed accordingly)',
+    'C05-i': 'NOT caught, deliberately: roll no longer restarts its stride grid after a *handled* key error. It needs a mux error that travels through roll to handlers that are not directly behind the failing operator (C13 specifies handlers placed directly after; C05 says nothing about errors); whether the grid restarts after such an error is not specified',
+    'C19-i': 'caught by C16 (the compression property: several compressors alive at once, chunks interleaved by the seeded schedule); C19 writes one file at a time',
     'C18-h': 'needs the csv schema given as a typing.NamedTuple class with default values: such schemas (with and without defaults) are generated now',
     'C06-h': 'needs predicate values that are equal only to themselves (plain objects shared by consecutive items): added as a predicate family',
     'C14-h': 'needs a state data type that is a subclass of float (numpy.float64, a user class): C14 declares such types now, scan runs with a numpy.float64 seed in C01/C02/C09, and numpy scalars keep their type in the canonical form',
     'C10-h': 'needs a start_with padding that is an iterable other than list/tuple: tuple, range and deque paddings added',
-    'C04-h': 'the protocol monitor (C03) and the lifetime differential (C02) see it in the quick tier; C04 itself needs the thorough tier (group_by > split > group_by with a particular interleaving of two parents)',
+    'C04-h': 'the protocol monitor (C03) and the lifetime differential (C02) saw it in the quick tier as built, C04 itself only in the thorough tier; after wave 9 C04 generates three-level nestings (group_by > roll or split > group_by) and sees it in the quick tier too',
+    'C04-i': 'as built seen by C03 and C02 only; C04 now generates group_by > overlapping roll > group_by (sparse parent indices of the inner group map) and catches it itself',
     'C08-g': 'needs a fatal on_error raised inside a branch that is not the last one (a failing assert_): C08 now puts an assert_ that fails on one value into a branch in one case of four and demands that the tee ends with on_error in the source event, and with the error, with which that branch ends when run alone',
     'C05-g': 'needs an unhandled mux error that travels through roll (no open window at that moment) to the demultiplexer: C13 with handler "none" now also puts stateful and window operators behind the failing operator',
     'C07-g': 'NOT caught, deliberately: closing_mapper is evaluated for items that open a window by timeout too, which only shows when closing_mapper raises on, or counts, such an item. With a pure total closing_mapper (all the property quantifies over) the windows are identical; when the mapper is evaluated is not specified',
